@@ -1,162 +1,6 @@
 package ergo
 
-import "strings"
-
 // C07: the dependency graph stays acyclic, same-kind and between live items.
-
-func zzEdge(g *Graph, from, to string) bool {
-	_, ok := g.Deps[from][to]
-	return ok
-}
-
-// zzI1: representation invariant of a replayed store (CoreInv).
-func zzAssumeI1(g *Graph) {
-	for k, t := range g.Tasks {
-		zzAssume(t.ID == k)
-		zzAssume(k != "")
-		_, tomb := g.Tombstones[k]
-		zzAssume(!tomb)
-		_, hasMeta := g.Meta[k]
-		zzAssume(hasMeta)
-		zzAssume(strings.TrimSpace(t.Title) != "") // I8: replay's legacy-title migration has run
-	}
-	for k := range g.Meta {
-		_, ok := g.Tasks[k]
-		zzAssume(ok)
-	}
-	for from, deps := range g.Deps {
-		_, tomb := g.Tombstones[from]
-		zzAssume(!tomb)
-		zzAssume(len(deps) > 0) // applyTombstone / replay never leave an empty inner map... (link creates, unlink may empty)
-		for to := range deps {
-			_, tomb2 := g.Tombstones[to]
-			zzAssume(!tomb2)
-		}
-	}
-}
-
-// zzAssumeI5: every edge joins two live items of the same kind, no self-edge, no cycle
-// (acyclicity stated with a symbolic rank function: edge u->v => rank(u) > rank(v)).
-func zzAssumeI5(g *Graph, ranks map[string]int) {
-	for from, deps := range g.Deps {
-		f := g.Tasks[from]
-		zzAssume(f != nil)
-		for to := range deps {
-			t := g.Tasks[to]
-			zzAssume(t != nil)
-			zzAssume(from != to)
-			zzAssume(f.IsEpic == t.IsEpic)
-			zzAssume(ranks[from] > ranks[to])
-		}
-	}
-}
-
-// zzI5Holds: the same, checked (cycles up to the number of slots are enumerated explicitly).
-func zzEdgesWellFormed(g *Graph) bool {
-	ok := true
-	for from, deps := range g.Deps {
-		f := g.Tasks[from]
-		if f == nil {
-			ok = false
-			continue
-		}
-		for to := range deps {
-			t := g.Tasks[to]
-			if t == nil || from == to || f.IsEpic != t.IsEpic {
-				ok = false
-			}
-		}
-	}
-	return ok
-}
-
-func zzHasCycle3(g *Graph) bool {
-	cyc := false
-	for a := range g.Tasks {
-		if zzEdge(g, a, a) {
-			cyc = true
-		}
-		for b := range g.Tasks {
-			if !zzEdge(g, a, b) {
-				continue
-			}
-			if zzEdge(g, b, a) {
-				cyc = true
-			}
-			for c := range g.Tasks {
-				if zzEdge(g, b, c) && zzEdge(g, c, a) {
-					cyc = true
-				}
-			}
-		}
-	}
-	return cyc
-}
-
-func zzMirror(g *Graph) bool {
-	ok := true
-	for id, t := range g.Tasks {
-		for _, d := range t.Deps {
-			if !zzEdge(g, id, d) {
-				ok = false
-			}
-			o := g.Tasks[d]
-			if o != nil {
-				found := false
-				for _, r := range o.RDeps {
-					if r == id {
-						found = true
-					}
-				}
-				if !found {
-					ok = false
-				}
-			}
-		}
-		for _, r := range t.RDeps {
-			if !zzEdge(g, r, id) {
-				ok = false
-			}
-		}
-		for d := range g.Deps[id] {
-			found := false
-			for _, x := range t.Deps {
-				if x == d {
-					found = true
-				}
-			}
-			if !found {
-				ok = false
-			}
-		}
-	}
-	return ok
-}
-
-// zzReachSpec: target is reachable from start along Deps edges (0 or more), as a bounded
-// fixpoint over the edge relation (n rounds suffice for n slots). Independent of isReachable.
-func zzReachSpec(g *Graph, start, target string, rounds int) bool {
-	if start == target {
-		return true
-	}
-	r := map[string]bool{}
-	for i := 0; i < rounds; i++ {
-		for x, deps := range g.Deps {
-			if x == start || r[x] {
-				for y := range deps {
-					r[y] = true
-				}
-			}
-		}
-	}
-	return r[target]
-}
-
-// summary of hasCycle used by the step harnesses (hasCycle itself is checked against it in
-// zzC07_HasCycle): adding from->to closes a cycle iff from is reachable from to.
-func zzHasCycleSpec(g *Graph, from, to string) bool {
-	return from == to || zzReachSpec(g, to, from, 4)
-}
 
 func zzC07HasCycle(spec string) {
 	g := &Graph{}
@@ -170,31 +14,21 @@ func zzC07HasCycle(spec string) {
 func zzC07_HasCycle_N3() { zzC07HasCycle("3;Tasks=0;Meta=0;RDeps=0;Tombstones=0;constkeys=Deps") }
 func zzC07_HasCycle_N4() { zzC07HasCycle("4;Tasks=0;Meta=0;RDeps=0;Tombstones=0;constkeys=Deps") }
 
-func zzC07Store(spec string) (*Graph, map[string]int) {
-	g := &Graph{}
-	zzHavoc("g", g, spec)
-	ranks := map[string]int{}
-	zzHavoc("rank", &ranks, spec)
-	zzAssumeI1(g)
-	zzAssumeI5(g, ranks)
-	return g, ranks
-}
-
-// One `sequence A B` / `sequence rm A B` edge, through the real writeLinkEvent.
+// One `sequence A B` / `sequence rm A B` edge, through the public RunSequence.
 func zzC07_LinkStep() {
 	g, _ := zzC07Store("3;Results=0;RDeps=0;Tombstones=1;constkeys=Tasks,Meta,Deps")
 	root := zzWorldInit(g)
-	opts := GlobalOptions{StartDir: root}
-	dir, derr := ergoDir(opts)
-	zzAssume(derr == nil)
-	from := zzString("from")
-	to := zzString("to")
+	opts := GlobalOptions{StartDir: root, JSON: zzBool("json")}
+	a := zzString("A") // sequence A B: B depends on A
+	b := zzString("B")
 	unlink := zzBool("unlink")
-	etype := "link"
+	var err error
 	if unlink {
-		etype = "unlink"
+		err = RunSequence([]string{"rm", a, b}, opts)
+	} else {
+		err = RunSequence([]string{a, b}, opts)
 	}
-	err := writeLinkEvent(dir, opts, etype, from, to)
+	from, to := b, a
 	written := zzWritten()
 	if err != nil {
 		zzAssert(len(written) == 0, "C07/link: rejected request writes nothing")
@@ -209,13 +43,12 @@ func zzC07_LinkStep() {
 	zzReach("link-accepted")
 	zzAssert(zzEdgesWellFormed(g2), "C07/link: every edge joins two live items of the same kind, no self-edge")
 	zzAssert(!zzHasCycle3(g2), "C07/link: no cycle")
-	// exactly the requested edge changed
-	for a := range g.Tasks {
-		for b := range g.Tasks {
-			if a == from && b == to {
-				zzAssert(zzEdge(g2, a, b) == !unlink, "C07/link: the requested edge is present after link / absent after rm")
+	for x := range g.Tasks {
+		for y := range g.Tasks {
+			if x == from && y == to {
+				zzAssert(zzEdge(g2, x, y) == !unlink, "C07/link: the requested edge is present after link / absent after rm")
 			} else {
-				zzAssert(zzEdge(g2, a, b) == zzEdge(g, a, b), "C07/link: no other edge changes")
+				zzAssert(zzEdge(g2, x, y) == zzEdge(g, x, y), "C07/link: no other edge changes")
 			}
 		}
 	}
@@ -224,19 +57,39 @@ func zzC07_LinkStep() {
 	zzAssert(fromLive && toLive, "C07/link: accepted only between live items")
 }
 
+// `sequence A B C`: a chain of two edges in one command.
+func zzC07_Chain() {
+	g, _ := zzC07Store("3;Results=0;RDeps=0;Tombstones=0;constkeys=Tasks,Meta,Deps")
+	root := zzWorldInit(g)
+	opts := GlobalOptions{StartDir: root}
+	err := RunSequence([]string{zzString("A"), zzString("B"), zzString("C")}, opts)
+	g2, perr := zzPost()
+	zzAssert(perr == nil, "C07/chain: store replays after the command")
+	if perr != nil {
+		return
+	}
+	if err == nil {
+		zzReach("chain-accepted")
+	} else {
+		zzReach("chain-rejected")
+	}
+	// whatever was written (all edges, or - known C10 finding - a prefix), the graph stays well-formed
+	zzAssert(zzEdgesWellFormed(g2), "C07/chain: every edge joins two live items of the same kind, no self-edge")
+	zzAssert(!zzHasCycle3(g2), "C07/chain: no cycle")
+}
+
 // deps/rdeps mirroring after a step, on a smaller store (the derived slices are rebuilt by
 // replay's post-processing for the whole graph).
 func zzC07_Mirror() {
 	g, _ := zzC07Store("2;Results=0;RDeps=0;Tombstones=0;constkeys=Tasks,Meta,Deps")
 	root := zzWorldInit(g)
 	opts := GlobalOptions{StartDir: root}
-	dir, derr := ergoDir(opts)
-	zzAssume(derr == nil)
-	etype := "link"
+	var err error
 	if zzBool("unlink") {
-		etype = "unlink"
+		err = RunSequence([]string{"rm", zzString("A"), zzString("B")}, opts)
+	} else {
+		err = RunSequence([]string{zzString("A"), zzString("B")}, opts)
 	}
-	err := writeLinkEvent(dir, opts, etype, zzString("from"), zzString("to"))
 	g2, perr := zzPost()
 	if err != nil || perr != nil {
 		return
